@@ -205,7 +205,7 @@ func Open(fileName string, opts *Options) (*AppendableFile, error) {
 
 		m := appendable.NewMetadata(mBs)
 
-		preallocSz, ok := m.GetInt(metaCompressionFormat)
+		preallocSz, ok := m.GetInt(metaPreallocSize)
 		if ok {
 			preallocSize = preallocSz
 		}
@@ -350,6 +350,16 @@ func (aof *AppendableFile) SetOffset(newOffset int64) error {
 		//in-mem change
 		aof.wbufUnwrittenOffset -= int(currOffset - newOffset)
 		return nil
+	}
+
+	if aof.preallocSize == 0 {
+		// what follows the new offset is no longer part of the log: drop it from the file as well,
+		// otherwise it is data again as soon as the file is reopened or copied
+		// (a preallocated file keeps its size by design)
+		err := aof.f.Truncate(aof.fileBaseOffset + newOffset)
+		if err != nil {
+			return err
+		}
 	}
 
 	aof.fileOffset = newOffset
